@@ -63,9 +63,17 @@ Proof. repeat split; reflexivity. Qed.
 (* ---------------- regenerated fragments of set_random_seed / VecEnv.seed ---------------- *)
 (* the argument of each seeding call is the user's seed; sub-env idx gets seed + idx *)
 Theorem C10_fragments_partial :
-  (forall s, setup (Some s) = [SetRandomSeed (seed_py_arg (seed_global_arg s)); ActionSpaceSeed (seed_aspace_arg s); EnvSeed (seed_env_arg s)] /\
-             seed_np_arg (seed_global_arg s) = seed_py_arg (seed_global_arg s) /\ seed_torch_arg (seed_global_arg s) = seed_py_arg (seed_global_arg s)) /\
-  (forall s, seed_py_arg s = s /\ seed_np_arg s = s /\ seed_torch_arg s = s /\ seed_global_arg s = s /\ seed_aspace_arg s = s /\ seed_env_arg s = s) /\
+  (forall s ms, setup (Some s) = [SetRandomSeed (seed_py_arg (seed_global_arg s ms)); ActionSpaceSeed (seed_aspace_arg s ms); EnvSeed (seed_env_arg s ms)] /\
+             seed_np_arg (seed_global_arg s ms) = seed_py_arg (seed_global_arg s ms) /\ seed_torch_arg (seed_global_arg s ms) = seed_py_arg (seed_global_arg s ms)) /\
+  (forall s ms, seed_py_arg s = s /\ seed_np_arg s = s /\ seed_torch_arg s = s /\ seed_global_arg s ms = s /\ seed_aspace_arg s ms = s /\ seed_env_arg s ms = s) /\
   (forall s n i, (i < n)%nat -> nth_error (seeds_from s n) i = Some (Some (seed_vecenv_elt s (Z.of_nat i)))).
 Proof. exact (conj frag_setup (conj frag_seed_args frag_vecenv_seed)). Qed.
 Print Assumptions C10_fragments_partial.
+
+(* re-seeding a built model: set_random_seed(s) after set-up with another seed b (or none) leaves every
+   generator seeded with s and s+i pending for sub-env i *)
+Theorem C10_reseed_partial : forall n b s,
+  let x := run (init n) (setup b ++ setup (Some s)) in
+  s_py x = Seeded s /\ s_np x = Seeded s /\ s_torch x = Seeded s /\ s_aspace x = Seeded s /\ s_pending x = seeds_from s n.
+Proof. exact reseed_all_seeded. Qed.
+Print Assumptions C10_reseed_partial.
